@@ -167,6 +167,35 @@ impl<K: Hash + Eq, V, E: OnEvictCallback, S: BuildHasher> RawLRU<K, V, E, S> {
 }
 
 #[cfg(kani)]
+impl<K: Hash + Eq, V, E: OnEvictCallback, S: BuildHasher> RawLRU<K, V, E, S> {
+    /// Same abstract state as `verif_from_parts`, different concrete representation: nodes are allocated
+    /// from the least recent end and the index slots are filled in the opposite order (used by the two-run
+    /// relational contracts of C17: results must not depend on addresses or index order).
+    pub(crate) fn verif_from_parts_rev(cap: usize, hasher: S, cb: Option<E>, n: usize, mut item: impl FnMut(usize) -> (K, V)) -> Self {
+        let mut l = Self::construct(cap, HashMap::with_capacity_and_hasher(cap, hasher), cb);
+        let mut j = 0;
+        while j < NMAX {
+            if j < n {
+                let i = n - 1 - j;
+                let (k, v) = item(i);
+                unsafe {
+                    let node = Box::into_raw(Box::new(EntryNode::new(k, v)));
+                    // link right after the head sentinel: entries are created from the LRU end
+                    let first = (*l.head).next;
+                    (*node).next = first;
+                    (*node).prev = l.head;
+                    (*first).prev = node;
+                    (*l.head).next = node;
+                    l.map.verif_push(KeyRef { k: (*node).key.as_ptr() }, NonNull::new_unchecked(node));
+                }
+            }
+            j += 1;
+        }
+        l
+    }
+}
+
+#[cfg(kani)]
 #[path = "/verif/kani/harness_raw.rs"]
 pub(crate) mod harness;
 
